@@ -6,6 +6,7 @@ package harness
 
 import (
 	"bufio"
+	"bytes"
 	"encoding/json"
 	"fmt"
 	"math/rand"
@@ -19,6 +20,7 @@ import (
 	"strconv"
 	"strings"
 	"sync"
+	"syscall"
 	"time"
 )
 
@@ -102,6 +104,10 @@ type Check struct {
 	Extra func(tier string, stats map[string]int64) map[string]any
 	// CrashIsViolation: a worker process that dies is a violation (else broken run).
 	CrashIsViolation bool
+	// HangTries > 0: a case that exceeds CaseTimeout is re-run alone in fresh worker processes;
+	// if it exceeds the timeout HangTries times out of HangTries it is reported as a violation
+	// (a hang), with the goroutine dump of the last attempt. Otherwise a timeout is inconclusive.
+	HangTries int
 }
 
 var registry = map[string]*Check{}
@@ -594,12 +600,12 @@ func runWorker(c *Check, tier string, seed int64, w int, logdir string, jobs <-c
 		}
 	}
 	defer stop()
-	for idx := range jobs {
+	// attempt runs one case on the current worker (starting one if needed).
+	attempt := func(idx int, quit bool) (r Result, timedOut bool) {
 		if p == nil {
 			var err error
 			if p, err = startProc(); err != nil {
-				results <- Result{Case: idx, Verdict: Inconclusive, Detail: "cannot start worker: " + err.Error()}
-				continue
+				return Result{Case: idx, Verdict: Inconclusive, Detail: "cannot start worker: " + err.Error()}, false
 			}
 		}
 		fmt.Fprintf(p.stdin, "%d\n", idx)
@@ -624,21 +630,54 @@ func runWorker(c *Check, tier string, seed int64, w int, logdir string, jobs <-c
 				if c.CrashIsViolation || strings.Contains(tail, "panic:") || strings.Contains(tail, "fatal error:") || strings.Contains(tail, "DATA RACE") {
 					v = Violated
 				}
-				results <- Result{Case: idx, Verdict: v, Detail: "worker process died while running this case; stderr tail:\n" + tail}
-				continue
+				return Result{Case: idx, Verdict: v, Detail: "worker process died while running this case; stderr tail:\n" + tail}, false
 			}
 			var r Result
 			if err := json.Unmarshal(got.line, &r); err != nil {
-				results <- Result{Case: idx, Verdict: Inconclusive, Detail: "bad worker reply: " + err.Error()}
-				continue
+				return Result{Case: idx, Verdict: Inconclusive, Detail: "bad worker reply: " + err.Error()}, false
 			}
-			results <- r
+			return r, false
 		case <-time.After(timeout):
-			p.cmd.Process.Signal(os.Interrupt)
-			tail := tailFile(p.errf, 2000)
+			n := 2000
+			if quit {
+				// ask the Go runtime for a goroutine dump before killing the worker
+				p.cmd.Process.Signal(syscall.SIGQUIT)
+				time.Sleep(2 * time.Second)
+				n = 12000
+			} else {
+				p.cmd.Process.Signal(os.Interrupt)
+			}
+			tail := tailFile(p.errf, n)
+			if quit {
+				if b, err := os.ReadFile(p.errf); err == nil {
+					if i := bytes.LastIndex(b, []byte("SIGQUIT: quit")); i >= 0 {
+						tail = string(b[i:min(len(b), i+6000)])
+					}
+				}
+			}
 			stop()
-			results <- Result{Case: idx, Verdict: Inconclusive, Detail: fmt.Sprintf("watchdog: case did not finish in %v (inconclusive, not a violation); stderr tail:\n%s", timeout, tail)}
+			return Result{Case: idx, Verdict: Inconclusive, Detail: fmt.Sprintf("watchdog: case did not finish in %v (inconclusive, not a violation); stderr tail:\n%s", timeout, tail)}, true
 		}
+	}
+	for idx := range jobs {
+		r, timedOut := attempt(idx, false)
+		if timedOut && c.HangTries > 1 {
+			hung := 1
+			for hung < c.HangTries {
+				stop() // fresh process for every further attempt
+				r2, to := attempt(idx, hung == c.HangTries-1)
+				if !to {
+					r = r2
+					break
+				}
+				hung++
+				r = r2
+			}
+			if hung == c.HangTries {
+				r = Result{Case: idx, Verdict: Violated, Detail: fmt.Sprintf("hang: the case did not finish within %v in %d of %d fresh worker processes; goroutine dump of the last attempt:\n%s", timeout, hung, c.HangTries, r.Detail)}
+			}
+		}
+		results <- r
 	}
 }
 
